@@ -136,3 +136,21 @@ UNITS['removers'] = dict(
       (r'^std::function<', 'function', 'Callback'),
     ],
 )
+
+IDE = 'AnyId<std::hash, EmptyAnyStorage>'
+IDS = 'AnyId<std::hash, Stor>'
+UNITS['anyid'] = dict(
+    tu='inst/anyid.cpp', filter=['eventpp::operator', 'AnyId', 'compare', 'MakeHash', 'std::hash'], std='c++11',
+    root=('ClassTemplateSpecializationDecl', 'AnyId'), root_q=IDE,
+    extra_roots=[('ClassTemplateSpecializationDecl', 'AnyId', IDS),
+                 ('ClassTemplateSpecializationDecl', 'hash', 'std::hash<AnyId<>>'), ('ClassTemplateSpecializationDecl', 'hash', 'std::hash<' + IDS + '>'),
+                 ('ClassTemplateSpecializationDecl', 'MakeHash', 'anyid_internal_::MakeHash<unsigned long, void>')],
+    free_functions=['operator==', 'operator<', 'compareEqual', 'compareLessThan'],
+    names={IDE: 'IdE', IDS: 'IdS', 'Stor': 'Stor', 'AnyId<>': 'IdE', 'EmptyAnyStorage': 'EmptyStorage', 'std::hash<AnyId<>>': 'HashE', 'std::hash<' + IDE + '>': 'HashE', 'std::hash<' + IDS + '>': 'HashS',
+           'anyid_internal_::MakeHash<unsigned long, void>': 'MakeHash', 'anyid_internal_::MakeHash<unsigned long>': 'MakeHash'},
+    type_subst=[('AnyId<hash, EmptyAnyStorage>', IDE), ('AnyId<hash, Stor>', IDS)],
+    value_records=['Stor', 'EmptyStorage', 'MakeHash'],
+    opaque_records=['Stor', 'EmptyStorage'],
+    ghost_sig=[],
+    type_rules=[(r'DigestType$', 'builtin', 'unsigned long'), (r'^std::size_t$|^size_t$', 'builtin', 'unsigned long')],
+)
